@@ -14,7 +14,7 @@ NODE_TYPES = ['LEGENDRE', 'EQUID', 'CHEBY-1', 'CHEBY-2', 'CHEBY-3', 'CHEBY-4']
 # ---------------------------------------------------------------------------------------------------------- workload
 def gen_config(r, allow_faults=True, fixed_step=False, allow_mass=False):
     """One configuration of the space the property quantifies over (swarm style)."""
-    kind = r.choice(['dahlquist', 'dahlquist', 'dahlquist_imex', 'heat', 'heat_forced', 'advection', 'mass' if allow_mass else 'dahlquist'])
+    kind = r.choice(['dahlquist', 'dahlquist', 'dahlquist_imex', 'heat', 'heat_forced', 'advection', 'mass' if allow_mass else 'dahlquist', 'twopart'])
     P = r.choice([1, 1, 2, 3, 4, 5, 8])
     nlevels = r.choice([1, 1, 2, 2, 3])
     M = r.randint(2, 5) if nlevels > 1 else r.randint(1, 5)
@@ -40,6 +40,15 @@ def gen_config(r, allow_faults=True, fixed_step=False, allow_mass=False):
         sw_params['QI'] = r.choice(['IE', 'LU'])
         sw_params['QE'] = r.choice(QE_EXPL)
         rate = 8.0
+    elif kind == 'twopart':
+        # harness-owned linear problem with two implicit parts driving the real multi_implicit sweeper
+        prob = {'class': 'TwoPartDahlquist', 'params': {'n': r.randint(1, 4), 'seed': r.randrange(1000), 'stiffness': 10 ** r.uniform(-0.5, 1.0), 'forcing': r.choice([0.0, 1.0])}}
+        sweeper = 'multi_implicit'
+        sw_params['Q1'] = r.choice(['IE', 'LU'])
+        sw_params['Q2'] = r.choice(['IE', 'LU'])
+        rate = 8.0
+        if nlevels > 1:
+            transfer = {'class': 'mesh_to_mesh_nocoarse', 'params': {}}
     elif kind == 'dahlquist':
         n = r.randint(1, 4)
         lam = [[-10 ** r.uniform(-1, 1.3), r.uniform(-3, 3)] for _ in range(n)]
@@ -134,6 +143,10 @@ def gen_config(r, allow_faults=True, fixed_step=False, allow_mass=False):
         cfg['controller']['predict_type'] = None
         cfg['transfer'] = None
         cfg['run']['u0'] = 'exact'
+    if cfg['level']['residual_type'].endswith('rel') and kind in ('heat', 'heat_forced', 'advection'):
+        # the exact solution used as initial value may have decayed to exactly 0 at t0 > 0 (relative residual divides by |u0|)
+        nbl = (cfg['run']['Tend'] - cfg['run']['t0'])
+        cfg['run']['t0'], cfg['run']['Tend'] = 0.0, nbl
     if sw_params['initial_guess'] == 'zero' and cfg['level']['residual_type'].endswith('rel'):
         # a later step receives the all-zero end value of its predecessor at iteration 0 and the relative residual divides
         # by |u0| = 0 (ZeroDivisionError in Sweeper.compute_residual): outside the property, avoided, noted in DESIGN
